@@ -32,6 +32,9 @@ pub struct QSpec {
     /// the client sends this query that long after the start of the case (ms)
     #[serde(default)]
     pub send_after_ms: u16,
+    /// ... plus this many whole seconds (only the thorough tier's idle scenario uses it)
+    #[serde(default)]
+    pub send_after_s: u16,
 }
 
 fn default_gap() -> u16 {
@@ -43,6 +46,10 @@ pub struct ConcCase {
     /// 0: 127.0.0.1:p  1: 0.0.0.0:p  2: [::1]:p  3: [::]:p
     pub listener: u8,
     pub queries: Vec<QSpec>,
+    /// the scripted upstream closes a TCP connection on which nothing arrived for this long
+    /// (0: practically never)
+    #[serde(default)]
+    pub upstream_idle_close_ms: u32,
 }
 
 const V4_DSTS: [Ipv4Addr; 3] = [Ipv4Addr::new(127, 0, 0, 1), Ipv4Addr::new(127, 0, 0, 2), Ipv4Addr::new(127, 9, 8, 7)];
@@ -81,11 +88,12 @@ pub fn qspec_strategy(max_drops: u32, allow_all_lost: bool) -> impl Strategy<Val
             reply_split,
             reply_gap_ms,
             send_after_ms,
+            send_after_s: 0,
         })
 }
 
 pub fn conc_case_strategy(max_q: usize, max_drops: u32, allow_all_lost: bool) -> impl Strategy<Value = ConcCase> {
-    (0u8..4, proptest::collection::vec(qspec_strategy(max_drops, allow_all_lost), 1..=max_q)).prop_map(|(listener, queries)| ConcCase { listener, queries })
+    (0u8..4, proptest::collection::vec(qspec_strategy(max_drops, allow_all_lost), 1..=max_q)).prop_map(|(listener, queries)| ConcCase { listener, queries, upstream_idle_close_ms: 0 })
 }
 
 pub struct C07Conc {
@@ -107,6 +115,13 @@ impl C07Conc {
     }
 
     fn run_case(&self, c: &ConcCase) -> Outcome {
+        self.up.state.tcp_idle_close_ms.store(c.upstream_idle_close_ms as u64, std::sync::atomic::Ordering::Relaxed);
+        let out = self.run_case_inner(c);
+        self.up.state.tcp_idle_close_ms.store(0, std::sync::atomic::Ordering::Relaxed);
+        out
+    }
+
+    fn run_case_inner(&self, c: &ConcCase) -> Outcome {
         let mut out = Outcome::default();
         let listen_ip: IpAddr = match c.listener {
             0 => IpAddr::V4(Ipv4Addr::LOCALHOST),
@@ -197,8 +212,8 @@ impl C07Conc {
                         };
                         let qm = dns::query(0x7000 + i as u16, &question.name, 1, 1, true, None);
                         let bytes = dns::encode(&qm, dns::Compress::Off);
-                        if q.send_after_ms > 0 {
-                            std::thread::sleep(Duration::from_millis(q.send_after_ms as u64));
+                        if q.send_after_ms > 0 || q.send_after_s > 0 {
+                            std::thread::sleep(Duration::from_millis(q.send_after_ms as u64 + 1000 * q.send_after_s as u64));
                         }
                         let r = if q.tcp {
                             let splits: Vec<usize> = match q.split {
@@ -408,6 +423,7 @@ pub fn run_c07(ctx: &Ctx) {
         reply_split: 0,
         reply_gap_ms: 30,
         send_after_ms: 0,
+        send_after_s: 0,
     };
     for listener in 0..4u8 {
         let case = ConcCase {
@@ -424,6 +440,7 @@ pub fn run_c07(ctx: &Ctx) {
                 QSpec { delay_ms: 3200, ..plain(false, 0, 1) },
                 plain(false, 0, 2),
             ],
+            upstream_idle_close_ms: 0,
         };
         let out = exec_one(&prop, &case);
         ctx.record(prop.sub(), &case, &out);
@@ -452,7 +469,7 @@ pub fn run_c07(ctx: &Ctx) {
             drop_all: true,
             ..plain(false, 0, 0)
         });
-        let case = ConcCase { listener, queries };
+        let case = ConcCase { listener, queries, upstream_idle_close_ms: 0 };
         let out = exec_one(&prop, &case);
         ctx.record(prop.sub(), &case, &out);
         if let Some(f) = out.fail {
@@ -481,6 +498,7 @@ pub fn run_c07(ctx: &Ctx) {
                 QSpec { send_after_ms: 150, ..plain(true, 0, 0) },
                 QSpec { send_after_ms: 900, ..plain(true, 0, 0) },
             ],
+            upstream_idle_close_ms: 0,
         };
         let out = exec_one(&prop, &case);
         ctx.record(prop.sub(), &case, &out);
@@ -512,7 +530,7 @@ pub fn run_c07(ctx: &Ctx) {
             })
             .collect();
         for queries in [outstanding, segmented] {
-            let case = ConcCase { listener, queries };
+            let case = ConcCase { listener, queries, upstream_idle_close_ms: 0 };
             let out = exec_one(&prop, &case);
             ctx.record(prop.sub(), &case, &out);
             if let Some(f) = out.fail {
@@ -522,6 +540,32 @@ pub fn run_c07(ctx: &Ctx) {
                     ctx.violation(prop.sub(), &f, &case);
                     return;
                 }
+            }
+        }
+    }
+    // thorough only (it has to outwait the server's own 120 s timers): the upstream closes idle
+    // TCP connections after 3 s; a TCP-path query, 125 s of silence, then two more TCP-path
+    // queries, each of which must get its own answer over a fresh upstream connection
+    if ctx.tier == Tier::Thorough {
+        let case = ConcCase {
+            listener: 3,
+            queries: vec![
+                plain(true, 0, 0),
+                QSpec { send_after_s: 125, ..plain(true, 0, 0) },
+                QSpec { send_after_s: 126, tc: true, ..plain(false, 0, 1) },
+                QSpec { send_after_s: 127, ..plain(true, 1, 2) },
+            ],
+            upstream_idle_close_ms: 3000,
+        };
+        let mut out = exec_one(&prop, &case);
+        out.class("tcp-path-query-after-125-s-of-silence");
+        ctx.record(prop.sub(), &case, &out);
+        if let Some(f) = out.fail {
+            if ctx.is_known(&f.sig) {
+                ctx.known_hit(&f.sig);
+            } else {
+                ctx.violation(prop.sub(), &f, &case);
+                return;
             }
         }
     }
